@@ -3,7 +3,7 @@
    ids, writers that survey and then send guarded writes, any interleaving of events. *)
 From Coq Require Import List NArith Bool.
 From Verif Require Import Model.Publish Model.SlotAnswer Proofs.SlotAnswer.
-From Verif Require Import Model.TestAndSet Proofs.TestAndSet Proofs.TestAndSetTrace Proofs.TestAndSetRace.
+From Verif Require Import Model.TestAndSet Proofs.TestAndSet Proofs.TestAndSetTrace Proofs.TestAndSetRace Proofs.TestAndSetHist.
 Import ListNotations.
 Local Open Scope N_scope.
 
@@ -158,6 +158,26 @@ Example ex_foreign_share :
     [ ({| w_shnum := 4; w_server := 6 |}, answer_of 7 true [(4, 7)] [4]);
       ({| w_shnum := 0; w_server := 5 |}, answer_of 7 true [(0, 3)] [0]) ] = Success.
 Proof. vm_compute. split; reflexivity. Qed.
+
+(* WHAT BECOMES OF AN APPLIED WRITE, for every interleaving: a share that writer j's write was
+   applied to still holds j's version, or was replaced by a writer whose own survey had seen j's
+   version on that very share -- an informed successor, never someone who did not know about j. *)
+Theorem applied_write_survives_or_informed_successor :
+  forall ncells n evs j w i,
+    single_survey ncells n evs ->
+    nth_error (ws (run ncells n evs)) j = Some w -> In i (acked w) ->
+    nth_error (cells (run ncells n evs)) i = Some (new_version j) \/ informed_successor (run ncells n evs) j i.
+Proof. exact applied_write_survives_or_informed_successor_ok. Qed.
+Print Assumptions applied_write_survives_or_informed_successor.
+
+(* non-vacuity: writer 0 publishes, writer 1 surveys afterwards and overwrites cell 0: an informed successor *)
+Example ex_informed_successor :
+  let s := run 2 2 [Survey 0; Write 0 0; Write 0 1; Survey 1; Write 1 0]%nat in
+  cells s = [2; 1] /\ informed_successor s 0 0 /\ nth_error (cells s) 1 = Some (new_version 0).
+Proof.
+  cbn. split; [reflexivity|]. split; [|reflexivity].
+  exists 1%nat. eexists. eexists. split; [discriminate|]. split; [reflexivity|]. cbn. auto.
+Qed.
 
 From Verif Require Import Gen.MutPins.
 From Coq Require Import String.
